@@ -2,6 +2,7 @@ package exec
 
 import (
 	"go/token"
+	"path/filepath"
 	"go/types"
 	"sync"
 
@@ -35,6 +36,21 @@ func opaqueIface(o *Opaque) Iface { return Iface{T: opaqueType(o.Kind), V: o} }
 func init() {
 	ctxBg := func(ex *Exec, c *frame, fn *ssa.Function, a []Value) Value {
 		return opaqueIface(ex.newCtx(nil, false))
+	}
+	// files: an in-memory directory tree is enough (paths are concrete)
+	stdModels["os.MkdirTemp"] = func(ex *Exec, c *frame, fn *ssa.Function, a []Value) Value {
+		ex.nextID++
+		return Tuple{"/tmp/" + mustStr(a[1]) + itoa(int64(ex.nextID)), Iface{}}
+	}
+	stdModels["os.RemoveAll"] = func(ex *Exec, c *frame, fn *ssa.Function, a []Value) Value { return Iface{} }
+	stdModels["os.WriteFile"] = func(ex *Exec, c *frame, fn *ssa.Function, a []Value) Value { return Iface{} }
+	stdModels["path/filepath.Join"] = func(ex *Exec, c *frame, fn *ssa.Function, a []Value) Value {
+		sl := a[0].(Slice)
+		parts := make([]string, sl.Len)
+		for i := range parts {
+			parts[i] = mustStr(sl.Arr.E[sl.Off+i].V)
+		}
+		return filepath.Join(parts...)
 	}
 	stdModels["regexp.MustCompile"] = func(ex *Exec, c *frame, fn *ssa.Function, a []Value) Value {
 		return ex.newOpaque("regexp")
@@ -84,3 +100,5 @@ func init() {
 	}
 
 }
+
+func ptrTo(t types.Type) types.Type { return types.NewPointer(t) }
